@@ -41,12 +41,12 @@ SPEC = {
 
 
 def run(ctx: Ctx):
-    r11_1_2(ctx)
-    r11_3(ctx)
-    r11_4(ctx)
-    r11_5(ctx)
-    r11_6(ctx)
-    r11_7(ctx)
+    ctx.attempt("R11.1", lambda: r11_1_2(ctx))
+    ctx.attempt("R11.3", lambda: r11_3(ctx))
+    ctx.attempt("R11.4", lambda: r11_4(ctx))
+    ctx.attempt("R11.5", lambda: r11_5(ctx))
+    ctx.attempt("R11.6", lambda: r11_6(ctx))
+    ctx.attempt("R11.7", lambda: r11_7(ctx))
 
 
 def r11_7(ctx: Ctx, rule="R11.7"):
@@ -130,7 +130,31 @@ def r11_1_2(ctx: Ctx):
             key = [k.value for k in st.value.keywords if k.arg == "key"]
             by_start = bool(key) and isinstance(key[0], ast.Lambda) and norm(key[0].body) == "%s[1]" % key[0].args.args[0].arg
             sorts.append((st, by_start, True))
-    ok = bool(inserts) and bool(sorts) and sorts[-1][1] and sorts[-1][2]
+    if inserts and not sorts:
+        # the sort may live in the function that inserts: its last top-level statement, after every write of the block list
+        in_callee = []
+        for ins in inserts:
+            for node, g, binding, recv in E.calls(f):
+                if any(node is x for x in ast.walk(ins)) and g.cls is f.cls:
+                    body_ = [s_ for s_ in g.node.body if not (isinstance(s_, ast.Expr) and isinstance(s_.value, ast.Constant))]
+                    last_ = body_[-1] if body_ else None
+                    is_sort = isinstance(last_, ast.Expr) and isinstance(last_.value, ast.Call) and call_name(last_.value) == "sort" \
+                        and attr_chain(last_.value.func.value) == blocks
+                    if is_sort:
+                        key = [k.value for k in last_.value.keywords if k.arg == "key"]
+                        by_start = bool(key) and isinstance(key[0], ast.Lambda) and norm(key[0].body) == "%s[1]" % key[0].args.args[0].arg
+                        no_exit = not any(isinstance(x, ast.Return) for x in walk_no_nested(g.node))
+                        in_callee.append(by_start and no_exit and not any(k.arg == "reverse" for k in last_.value.keywords))
+                    elif any(e.root[0] == "self" and blocks.split(".")[1] in e.target for e in E.summary(g)):
+                        in_callee.append(False)
+        if in_callee and all(in_callee):
+            ctx.ob("R11.1", f, inserts[0], True, "the function that inserts the blocks ends by sorting the block list by start offset "
+                   "(no earlier exit)", node=inserts[0])
+            sorts = None
+    if sorts is None:
+        ok = None
+    else:
+        ok = bool(inserts) and bool(sorts) and sorts[-1][1] and sorts[-1][2]
     # ... and unconditionally: "sort only when needed" tests are how blocks end up appended out of file order
     cond_sort = None
     pmf_ = parents_map(f.node)
@@ -146,10 +170,11 @@ def r11_1_2(ctx: Ctx):
     if ok:
         sid = cfg.node_of(sorts[-1][0]).id
         ok = all(sid in pdom[cfg.node_of(i).id] and sorts[-1][0].lineno > i.lineno for i in inserts)
-    ctx.ob("R11.1", f, sorts[-1][0] if sorts else "sort of the block list", ok,
-           "after every insertion of blocks the block list is sorted by start offset (so molecules come out in file "
-           "order whatever the topology loading order)" + ("" if sorts else " -- no sort found"),
-           node=sorts[-1][0] if sorts else f.node, insertion_sites=[norm(i)[:60] for i in inserts])
+    if ok is not None:
+        ctx.ob("R11.1", f, sorts[-1][0] if sorts else "sort of the block list", ok,
+               "after every insertion of blocks the block list is sorted by start offset (so molecules come out in file "
+               "order whatever the topology loading order)" + ("" if sorts else " -- no sort found"),
+               node=sorts[-1][0] if sorts else f.node, insertion_sites=[norm(i)[:60] for i in inserts])
     # R11.2
     state_writes = []
     for st in main_body:
